@@ -607,7 +607,18 @@ class Q:
                     return B(False)
             else:
                 conds.append(part == 0)
-        return B(z3.And(*conds) if len(conds) > 1 else conds[0])
+        cond = z3.And(*conds) if len(conds) > 1 else conds[0]
+        if CTX.facts:
+            for want, neg in ((True, z3.Not(cond)), (False, cond)):
+                so = z3.Solver()
+                so.set('timeout', 3000)
+                so.add(CTX.facts)
+                so.add(CTX.den_conds())
+                so.add(CTX.pc)
+                so.add(neg)
+                if so.check() == z3.unsat:
+                    return B(want)
+        return B(cond)
 
     def __ne__(a, b):
         e = a.__eq__(b)
@@ -634,6 +645,10 @@ class Q:
 
     def __int__(a):
         return a.__index__()
+
+    def __and__(a, b):
+        return int(a) & int(b)
+    __rand__ = __and__
 
     def __repr__(a):
         return 'Q(%s, %s, den=%d)' % (a.re, a.im, len(a.den))
